@@ -199,6 +199,19 @@ class VHandle(io.IOBase):
             self.vf.write_at(pos, b, "write")
         self.pending = []
 
+    def truncate(self, size=None):
+        self.flush()
+        size = self.pos if size is None else size
+        cur = self.vf.size()
+        self.vf.fs.seq += 1
+        self.vf.log.append((self.vf.fs.seq, "truncate", size, []))
+        if size >= cur:
+            self.vf.chunks += [[0, 1, False] for _ in range(size - cur)]
+        else:
+            self.vf._explode()
+            del self.vf.chunks[size:]
+        return size
+
     def close(self):
         if not self._closed:
             self.flush()
